@@ -129,7 +129,11 @@ Qed.
 Lemma on_retract_response_TT s w ids s' : (forall x, In x ids -> T x) -> on_retract_response s w ids = Ok s' -> TT T N (core_of s) (core_of s').
 Proof.
   unfold on_retract_response. intros HT H. destruct (retract_response_states _ w ids []) as [c' groups] eqn:E.
-  rewrite (send_redirected_core _ _ _ H). eapply retract_response_states_TT; [exact HT | exact E].
+  apply bind_ok in H. destruct H as (s2 & H & H2).
+  assert (X2 : TT T N (core_of s) (core_of s2)).
+  { rewrite (send_redirected_core _ _ _ H). eapply retract_response_states_TT; [exact HT | exact E]. }
+  destruct (retract_wakes _ _ _ _); inversion H2; subst s'; clear H2; [|exact X2].
+  eapply TT_trans; [exact X2 | apply TT_tasks; reflexivity].
 Qed.
 
 (** * Server: new worker, new tasks *)
